@@ -33,6 +33,7 @@ META.update({
     "C08": _m("All bounded operation histories are enumerated by TLC on the abstract context machine (TypeOK and failed-set-is-a-no-op checked in-model) and replayed on real contexts; long random histories are validated as traces with the after-state compared at every step.", "DESIGN.md section 6 C08"),
     "C09": _m("Recorded `in {..}` executions with long random lists are accepted only if they equal declarative membership.", "DESIGN.md section 6 C09"),
     "C10": _m("TLC enumerates the small exhaustive space and the structured block-boundary cases with the declarative answer Occurs(p, h); the harness executes each on every anchor position and on both search paths; random large cases are validated as traces.", "DESIGN.md section 6 C10"),
+    "C11": _m("A set-of-end-positions semantics of the regex subset, the wildcard matcher and the quoted-pattern scanner are specified in TLA+; TLC enumerates small patterns exhaustively with their expected results and checks that the scanner inverts the documented quoting; random deeper patterns are validated as traces.", "DESIGN.md section 6 C11"),
     "C12": _m("uses()/uses_list() answers on random filters are accepted only if they equal the syntactic occurrence predicates.", "DESIGN.md section 6 C12"),
     "C13": _m("Parse verdicts of nesting shapes under varying limits must equal the L2 counter model, which is checked against Nesting(ast).", "DESIGN.md section 6 C13"),
     "C14": _m("Recorded serializations, five-way round trips and mutated documents are accepted only if they match the specification's encoder (EncValue/EncFields/EncLists) and type-directed decoder (DecValue/DecEntries as a left-to-right fold); no panic, no wrong-typed value stored.", "DESIGN.md section 6 C14"),
